@@ -46,10 +46,19 @@ P9 == << <<L(1, 1)>>, <<A(1, "s1", "LOGIN", 1), A(2, "s1", "OTHER", 0)>>, <<KL>>
 \* login || records || session cleanup only
 P10 == << <<L(1, 1)>>, <<A(1, "s1", "LOGIN", 1), A(2, "s1", "OTHER", 0)>>, <<KS>> >>
 
+\* PROGRAM ORDER matters: a cleanup that comes after a delivery of the same goroutine (Read's loop handles a login and
+\* then a cleanup tick) finds what that delivery left, whatever another goroutine is doing to another session at
+\* that moment.  The probes look for the leftover: a LOGIN record for the pid / a login for the pid.
+P11 == << <<L(1, 1), KL>>, <<A(1, "s2", "LOGIN", 2), A(2, "s2", "OTHER", 0)>> >>
+ProbeL == <<A(100, "s1", "LOGIN", 1), A(101, "s1", "OTHER", 0)>>
+P12 == << <<A(1, "s1", "LOGIN", 1), KS>>, <<L(2, 2), A(2, "s2", "LOGIN", 2)>> >>
+ProbeS == <<L(100, 1), A(101, "s1", "OTHER", 0)>>
+
 Programs == << [name |-> "P1", threads |-> P1, post |-> Probe1], [name |-> "P2", threads |-> P2, post |-> Probe1], [name |-> "P3", threads |-> P3, post |-> Probe1],
                [name |-> "P4", threads |-> P4, post |-> Probe2], [name |-> "P5", threads |-> P5, post |-> Probe1], [name |-> "P6", threads |-> P6, post |-> Probe1],
                [name |-> "P7", threads |-> P7, post |-> Probe2], [name |-> "P8", threads |-> P8, post |-> Probe1],
-               [name |-> "P9", threads |-> P9, post |-> Probe1], [name |-> "P10", threads |-> P10, post |-> Probe1] >>
+               [name |-> "P9", threads |-> P9, post |-> Probe1], [name |-> "P10", threads |-> P10, post |-> Probe1],
+               [name |-> "P11", threads |-> P11, post |-> ProbeL], [name |-> "P12", threads |-> P12, post |-> ProbeS] >>
 
 ASSUME PrintT(<<"PROGS", ToJson(Programs)>>)
 =============================================================================
